@@ -14,9 +14,10 @@ git checkout -q -- . ; git clean -fdq -e target
 export CARGO_NET_OFFLINE=true
 git apply "$d/patch.diff" || { echo "RESULT $d patch-does-not-apply"; exit 1; }
 git apply "$d/demo.diff" || { echo "RESULT $d demo-does-not-apply"; exit 1; }
-lib=$(cargo test --offline --lib -j 8 2>&1 | grep -E "^test result" | head -1)
-demo_with=$(cargo test --offline --test '*' -j 8 2>&1 | grep -E "^test result" | tr '\n' ' ')
+lib=$(timeout 900 cargo test --offline --lib -j 8 2>&1 | grep -E "^test result" | head -1)
+demo_with=$(timeout 600 cargo test --offline --test '*' -j 8 2>&1 | grep -E "^test result" | tr '\n' ' ')
 git apply -R "$d/patch.diff"
-demo_without=$(cargo test --offline --test '*' -j 8 2>&1 | grep -E "^test result" | tr '\n' ' ')
+demo_without=$(timeout 600 cargo test --offline --test '*' -j 8 2>&1 | grep -E "^test result" | tr '\n' ' ')
 git checkout -q -- . ; git clean -fdq -e target
+[ -z "$demo_with" ] && demo_with="(no result: hung or failed to build; killed by timeout)"
 echo "RESULT $d | lib(with): $lib | demo(with): $demo_with | demo(without): $demo_without"
